@@ -115,7 +115,7 @@ net_setup(void) {
 	harness_connect = 1;
 	filler = socket(AF_INET, SOCK_STREAM | SOCK_NONBLOCK, 0);
 	connect(filler, (struct sockaddr *)&addr_of[K_P], sizeof(struct sockaddr_in));
-	p.fd = filler; p.events = POLLOUT; poll(&p, 1, 2000);
+	p.fd = filler; p.events = POLLOUT; poll(&p, 1, 10000);
 	harness_connect = 0;
 }
 
@@ -208,7 +208,7 @@ accept_cb(tp_task_p tptask, int error, uintptr_t skt, struct sockaddr_storage *a
 	if (n_accepted >= ncli) { cfail("connection-invented", "a connection was delivered that nobody made"); return (TP_TASK_CB_CONTINUE); }
 	if (NULL == addr || AF_INET != addr->ss_family) cfail("wrong-task-args", "no peer address");
 	p.fd = (int)skt; p.events = POLLIN;
-	if (1 != poll(&p, 1, 2000) || 1 != read((int)skt, &idx, 1))
+	if (1 != poll(&p, 1, 10000) || 1 != read((int)skt, &idx, 1))
 		cfail("connection-wrong", "the accepted descriptor %d is not a connection of a client", (int)skt);
 	else if (idx != (uint8_t)n_accepted)
 		cfail("connection-order", "connection %d delivered as number %d", idx, n_accepted);
@@ -316,7 +316,7 @@ one_client(void) {
 	connect(cli[ncli], (struct sockaddr *)&addr_of[K_U], sizeof(struct sockaddr_in));
 	harness_connect = 0;
 	p.fd = cli[ncli]; p.events = POLLOUT;
-	if (1 != poll(&p, 1, 2000)) { vh_fail("harness", "client connect did not complete"); case_failed = 1; return; }
+	if (1 != poll(&p, 1, 10000)) { vh_fail("harness", "client connect did not complete"); case_failed = 1; return; }
 	idx = (uint8_t)ncli;
 	if (1 != write(cli[ncli], &idx, 1)) { vh_fail("harness", "client write"); case_failed = 1; }
 	ncli ++;
@@ -369,7 +369,7 @@ __wrap_epoll_wait(int epfd, struct epoll_event *ev, int maxev, int timeout) {
 			if (att_fd >= 0 && !att_polled && natt > 0 && K_P != att_kind[(natt - 1) % MAXATT]) {
 				/* an attempt towards U or D is on the wire: its outcome belongs to this step */
 				struct pollfd p; p.fd = att_fd; p.events = POLLOUT;
-				poll(&p, 1, 2000); att_polled = 1;
+				poll(&p, 1, 10000); att_polled = 1;
 				continue;
 			}
 			settle_left = 0;
@@ -418,7 +418,7 @@ run_case(void) {
 		harness_connect = 1;
 		connect(conn_fd, (struct sockaddr *)&addr_of[C.kind], sizeof(struct sockaddr_in));
 		harness_connect = 0;
-		if (K_P != C.kind) { p.fd = conn_fd; p.events = POLLOUT; poll(&p, 1, 2000); }	/* the outcome is there before the task starts */
+		if (K_P != C.kind) { p.fd = conn_fd; p.events = POLLOUT; poll(&p, 1, 10000); }	/* the outcome is there before the task starts */
 		rc = tp_task_connect_create(t0, (uintptr_t)conn_fd, 0, C.timeout ? TIMEOUT_MS : 0, connect_cb, NULL, &task);
 		break;
 	case M_CONNECT_EX:
